@@ -135,13 +135,13 @@ def check_adaptive_sum(ctx):
     heap = {ox.oid: {'a': X, 'n': Num(n)}, oy.oid: {'a': Y, 'n': Num(n)}}
     a, s = S('a'), S('adaptive_smooth')
     ev = Evaluator(ctx.prog, inline=no_sau, opaque_kind=REPO_RESULT_KIND)
-    ev.run_function(fi, pos=[ox, oy, a, s], heap=heap)
+    res_, _st = ev.run_function(fi, pos=[ox, oy, a, s], heap=heap)
     if ev.issues:
         raise AnalysisError(f"C05.2: {fi.qualname} not canonicalisable: {ev.issues[:3]}")
-    ret = [x for x in ast.walk(fi.node) if isinstance(x, ast.Return) and isinstance(x.value, ast.Tuple)]
-    if not ret:
+    from .common import result_positions
+    pos_of = result_positions(ev, res_)
+    if not pos_of:
         raise AnalysisError('C05.2: window tables are not returned as a tuple')
-    pos_of = {e.id: i for i, e in enumerate(ret[0].value.elts) if isinstance(e, ast.Name)}
     general = {}
     for e in ev.events:
         if e.kind != 'append' or not e.loops:
